@@ -49,6 +49,7 @@ Proof.
     destruct (at_ <=? l_now (r_l r)); [|exact I].
     set (r0 := mkRun (r_l r) (r_gone r) PIdle rest (r_conf r)).
     change (r_l r) with (r_l r0).
+    destruct (match l_sink_closed (r_l r0) with Some _ => true | None => false end); [apply sound_just_ph|].
     destruct o as [tx eff effp|k tx eff|k effp].
     + destruct (last_live (r_gone r) 0 None); apply sound_just_ph.
     + destruct (live_pos (r_gone r) k 0); [|apply sound_just_ph].
